@@ -275,6 +275,63 @@ func c18ROI(c *vlib.Ctx) {
 			verify("node/"+child+"/r/", setB, "two-versions:child", []byte(fmt.Sprintf("%s (child of a root holding %s)", bodyB, bodyA)), rep, boxes[:3])
 		}
 	}
+	// Large span lists: the instance stores spans in write batches of 10 000; counts around that size and its multiples
+	// (one span per block row, rows spread over negative and positive y / z) must read back complete.
+	for _, n := range []int{9999, 10000, 10001, 20000, 20001} {
+		r3, err := vsrv.NewRepo()
+		if err != nil {
+			c.Violate("harness:roi:repo", err.Error(), nil)
+			return
+		}
+		if err := vsrv.NewInstance(r3, "roi", "r", map[string]string{"BlockSize": fmt.Sprintf("%d,%d,%d", c18B, c18B, c18B)}); err != nil {
+			c.Violate("harness:roi:instance", err.Error(), nil)
+			return
+		}
+		spans := make([][4]int, 0, n)
+		for i := 0; i < n; i++ {
+			z, y := i/200-50, i%200-100
+			spans = append(spans, [4]int{z, y, i % 7, i%7 + i%3})
+		}
+		body, _ := json.Marshal(spans)
+		rep := map[string]interface{}{"span_count": n, "layout": "span i = [i/200-50, i%200-100, i%7, i%7+i%3]"}
+		if r := vsrv.Post("node/"+r3+"/r/roi", body); !r.OK() {
+			c.Violate("roi:post:large:refused", fmt.Sprintf("POST roi with %d spans refused: %s", n, trunc(r.String(), 200)), rep)
+			continue
+		}
+		requests++
+		g := vsrv.Get("node/" + r3 + "/r/roi")
+		var back [][4]int
+		json.Unmarshal(g.Body, &back)
+		c.Eval(int64(n))
+		c.Nontrivial(fmt.Sprintf("roi-large|%d", n))
+		if len(back) != n {
+			c.Violate("roi:get:large:span-count", fmt.Sprintf("POST roi with %d spans (accepted), GET roi returns %d spans", n, len(back)), rep)
+			continue
+		}
+		for i := range back {
+			if back[i] != spans[i] {
+				c.Violate("roi:get:large:span-differs", fmt.Sprintf("POST roi with %d spans: span #%d reads back as %v, posted %v", n, i, back[i], spans[i]), rep)
+				break
+			}
+		}
+		// membership of the first and last rows
+		var qp [][3]int
+		for _, i := range []int{0, 1, n / 2, n - 2, n - 1} {
+			sp := spans[i]
+			qp = append(qp, [3]int{sp[2] * c18B, sp[1] * c18B, sp[0] * c18B}, [3]int{(sp[3]+1)*c18B - 1, sp[1]*c18B + c18B - 1, sp[0]*c18B + c18B - 1})
+		}
+		qb, _ := json.Marshal(qp)
+		q := vsrv.Post("node/"+r3+"/r/ptquery", qb)
+		var ans []bool
+		json.Unmarshal(q.Body, &ans)
+		for i := range qp {
+			if i >= len(ans) || !ans[i] {
+				c.Violate("roi:ptquery:large", fmt.Sprintf("POST roi with %d spans: ptquery(%v) inside a posted span answers false (%s)", n, qp[i], trunc(q.String(), 120)), rep)
+				break
+			}
+		}
+		c.Outcome(fmt.Sprintf("roi-large-%d", n))
+	}
 	c.Set("roi_two_version_pairs", pairs)
 	c.Set("roi_requests", requests)
 	c.Set("roi_span_sets", 2*(1<<n)-n-1)
